@@ -12,6 +12,21 @@ sys.path.insert(0, os.path.dirname(os.path.abspath(__file__)))
 import core  # noqa: E402
 
 
+def watchdog(limit):
+    """a check that does not finish is a tool failure (exit 2), never a verdict"""
+    import faulthandler
+    import threading
+
+    def fire():
+        print("INFRASTRUCTURE ERROR (exit 2): time limit of %d s exceeded; stack follows" % limit, file=sys.stderr)
+        faulthandler.dump_traceback(file=sys.stderr)
+        sys.stderr.flush()
+        os._exit(2)
+    t = threading.Timer(limit, fire)
+    t.daemon = True
+    t.start()
+
+
 def main():
     ap = argparse.ArgumentParser()
     ap.add_argument("pid")
@@ -20,6 +35,7 @@ def main():
     a = ap.parse_args()
     seed = int(os.environ.get("VERIF_SEED", "0") or 0)
     pid = a.pid.upper()
+    watchdog(int(os.environ.get("VERIF_TIME_LIMIT", "1500" if a.tier == "quick" else "14400")))
     try:
         mod = importlib.import_module("props." + pid.lower())
         t0 = time.time()
